@@ -1,0 +1,1 @@
+//! Verification hooks (cfg `rten_verif`). Not compiled into ordinary builds.
